@@ -52,7 +52,7 @@ MODELLED = [
 BUDGET_S = {"quick": 40, "thorough": 400}
 SEARCH_S = {"quick": 60, "thorough": 240}
 
-N_PER_COMPILER = {"quick": 20, "thorough": 150}
+N_PER_COMPILER = {"quick": 20, "thorough": 280}
 
 
 def tier_depth(tier):
@@ -132,15 +132,21 @@ def shrink(payload):
 
 MANIFEST = {
     "level_text": ("Lean 4 theorems (Props/C06.lean): a generic forward-simulation theorem over abstract transition systems "
-                   "(soundness of plan map-back for every plan length), closed under composition (pipelines), instantiated with "
-                   "the declarative successor semantics of C01 (Spec/Successor.lean) for the models of ConditionalEffectsRemover "
-                   "(repaired), StateInvariantsRemover / BoundedTypesRemover (invariant condition added to every precondition and "
-                   "the goal) and further compilers as listed in the theorem list; the models are tied to /repo by a differential "
-                   "comparison of the compiled problems; for ALL ten compilers and six pipelines the property itself is decided on "
-                   "the real code by an exhaustive end-to-end differential (every plan of the compiled problem up to length 3/4)."),
-    "level_note": ("Partial: no theorem for UsertypeFluentsRemover, TrajectoryConstraintsRemover, UndefinedInitialNumericRemover "
-                   "(end-to-end differential only). The simplifier / DNF walker are parameters with the soundness hypothesis that "
-                   "C11 / C12 prove. Open findings (unsound compilations on the unchanged tree) are listed in known_findings.json."),
+                   "(soundness of plan map-back for every plan length, trace preservation), closed under composition (pipelines), "
+                   "instantiated with the declarative successor semantics of C01 (Spec/Successor.lean) for the models of "
+                   "ConditionalEffectsRemover (repaired: conflicting variants skipped, conditional forall effects expanded), "
+                   "StateInvariantsRemover (invariants added to every precondition and the goal: simulation up to viability) and "
+                   "the action split of DisjunctiveConditionsRemover; five compiler models (these three, BoundedTypesRemover, "
+                   "QuantifiersRemover) are tied to /repo by a differential comparison of the compiled problems; for ALL ten "
+                   "compilers and six pipelines the property itself is decided on the real code by an exhaustive end-to-end "
+                   "differential (every plan of the compiled problem up to length 3/4)."),
+    "level_note": ("Partial: theorems cover the parameterless actions of a problem (instantiation of parameters is not proved to "
+                   "commute with the compilations), quantifier-free invariants, DisjunctiveConditionsRemover without goal action and "
+                   "without split effect conditions; no theorem for BoundedTypesRemover, QuantifiersRemover, Grounder, "
+                   "NegativeConditionsRemover (model or differential only), UsertypeFluentsRemover, TrajectoryConstraintsRemover, "
+                   "UndefinedInitialNumericRemover (end-to-end differential only). The simplifier / DNF walker are parameters assumed "
+                   "exact in every evaluation context (C11 / C12 prove exactness where expressions are defined). Open findings "
+                   "(unsound compilations on the unchanged tree) are listed in known_findings.json."),
     "technique": "Lean 4 proof (simulation frame + per-compiler step lemmas) + model/code correspondence + exhaustive end-to-end differential",
     "design_ref": "DESIGN.md §5 C06/C07",
 }
